@@ -344,11 +344,14 @@ class SmallSet {
   void insert(std::initializer_list<value_type> ilist) { insert(ilist.begin(), ilist.end()); }
 
   insert_return_type insert(node_type &&nh) {
-    insert_return_type irt{end(), false, std::move(nh)};
-    if (irt.node) {
-      std::tie(irt.position, irt.inserted) = insert(std::move(*irt.node._optV));
+    // the element stays in 'nh' until it is inserted: if the insertion throws, 'nh' still owns it
+    insert_return_type irt{end(), false, node_type(nh.get_allocator())};
+    if (nh) {
+      std::tie(irt.position, irt.inserted) = insert(std::move(*nh._optV));
       if (irt.inserted) {
-        irt.node._optV = std::nullopt;
+        nh._optV = std::nullopt;
+      } else {
+        irt.node = std::move(nh);
       }
     }
     return irt;
